@@ -61,6 +61,7 @@ def resOut : Res → String
   | .undef => "undef"
   | .bool b => if b then "b:true" else "b:false"
   | .throwType => "throw:TypeError"
+  | .throwScript => "throw:Error"
   | .panic => "panic"
 
 def isSurr (u : Nat) : Bool := 0xD800 ≤ u ∧ u ≤ 0xDFFF
@@ -163,8 +164,54 @@ def handleOwn (op : String) (how : String) (r0 : Recv) (args : List Val) : Strin
       else (.arr (sortNames o.keys), .arr (sortNames (Spec.keys S exps)))
     reply m sp (devs op how r0 rm args)
 
+/-! scripted operands:  P<value>  a primitive;  O<out>/<out>/…  an object whose valueOf = toString logs the call
+    and returns the next <out> (a value token) or throws (`!`);  reply tokens are `<log>;<result>` with the log
+    written as R (receiver) and argument numbers -/
+def outcome? (t : String) : Option Outcome :=
+  if t = "!" then some .throw else (val? t).map .ret
+
+def operand? (t : String) : Option Operand :=
+  if t.startsWith "P" then (val? (t.drop 1).toString).map .prim
+  else if t.startsWith "O" then ((t.drop 1).toString.splitOn "/").mapM outcome? |>.map .obj
+  else none
+
+def logOut (log : List Nat) : String :=
+  if log.isEmpty then "-" else String.join (log.map fun w => if w = 0 then "R" else toString (w - 1))
+
+def firstVal : Operand → Option Val
+  | .prim v => some v
+  | .obj (.ret v :: _) => some v
+  | .obj _ => none
+
+def seqDevs (m : String) (r : Run) : List String :=
+  let a (k : Nat) := r.operand (k + 1)
+  let d : List (String × Bool) := [
+    ("order_charAt_pos_first", (m == "charAt" || m == "charCodeAt") && r.recv.isObj && (a 0).isObj),
+    ("order_split_limit0", m == "split" && recvOK r && (a 0).isObj && present r 1 &&
+        (match firstVal (a 1) with | some v => decide (toUint32 env.c5 v = 0) | none => false)),
+    ("order_lastIndexOf_empty", m == "lastIndexOf" && recvOK r && (a 1).isObj &&
+        (match firstVal r.recv with | some t => (toStr env t).isEmpty | none => false)),
+    ("order_replace_lazy", m == "replace" && recvOK r && (a 1).isObj &&
+        (match firstVal r.recv, firstVal (a 0) with
+         | some t, some sv => (indexBytes (toStr env t) (toStr env sv)).isNone
+         | _, _ => false))
+  ]
+  (d.filter (·.2)).map (·.1)
+
+def handleSeq (m : String) (rt : String) (as : List String) : String :=
+  match operand? rt, as.mapM operand? with
+  | some recv, some args =>
+    let r : Run := ⟨recv, args⟩
+    if (C09.pureMethod m).isNone then "bad-op" else
+    let (ml, mr) := (goPlan env m).run r
+    let (sl, sr) := (Spec.es5Plan env m).run r
+    let dev := seqDevs m r
+    logOut ml ++ ";" ++ resOut mr ++ " " ++ logOut sl ++ ";" ++ resOut sr ++ " " ++ (if dev.isEmpty then "-" else ",".intercalate dev)
+  | _, _ => "bad-op"
+
 def handle (ws : List String) : String :=
   match ws with
+  | "seq" :: m :: rt :: as => handleSeq m rt as
   | "fromCharCode" :: "-" :: as =>
     match as.mapM val? with
     | some args => reply (C09.fromCharCode env args) (Spec.fromCharCode env args) (devs "fromCharCode" "-" (.val .undef) (.val .undef) args)
